@@ -354,6 +354,14 @@ def c03_jobs(tier):
     for n in ns:
         jobs.append({"pkgdir": "io/seqio/fasta", "func": "VerifC03_Fasta", "params": {"n": n, "nonascii": 0}, "timeout_s": 600 if tier == "quick" else 3000})
         jobs.append({"pkgdir": "io/seqio/fastq", "func": "VerifC03_Fastq", "params": {"n": n, "nonascii": 0}, "timeout_s": 600 if tier == "quick" else 3000})
+    for bt in (3, 4, 5, 6, 12):
+        for n in ((2, 3) if tier == "quick" else (1, 2, 3, 4, 5)):
+            jobs.append({"pkgdir": "io/featio/bed", "func": "VerifC03_Bed", "params": {"n": n, "bedtype": bt}, "timeout_s": 600 if tier == "quick" else 3000})
+        jobs.append({"pkgdir": "io/featio/bed", "func": "VerifC03_BedStructured", "params": {"bedtype": bt}, "timeout_s": 900 if tier == "quick" else 3000})
+    for n in ((2, 3) if tier == "quick" else (1, 2, 3, 4, 5)):
+        jobs.append({"pkgdir": "io/featio/gff", "func": "VerifC03_Gff", "params": {"n": n}, "timeout_s": 600 if tier == "quick" else 3000})
+    for meta in (0, 1):
+        jobs.append({"pkgdir": "io/featio/gff", "func": "VerifC03_GffStructured", "params": {"meta": meta}, "timeout_s": 900 if tier == "quick" else 3000})
     jobs.append({"pkgdir": "io/seqio/fasta", "func": "VerifC03_Fasta", "params": {"n": 3, "nonascii": 1}})
     jobs.append({"pkgdir": "io/seqio/fastq", "func": "VerifC03_Fastq", "params": {"n": 3, "nonascii": 1}})
     return jobs
@@ -361,9 +369,10 @@ def c03_jobs(tier):
 
 CHECKS["C03"] = {
     "jobs": c03_jobs,
-    "functions": ["fasta.(*Reader).Read/header", "bufio.(*Reader).ReadLine/ReadSlice/fill, bytes.TrimSpace/HasPrefix/Fields/Join/IndexAny (executed)"],
-    "explanation": "arbitrary buffer: every input byte symbolic; Read called until an error; no panic, record-or-error, error within lines+2 calls",
-    "outside": "inputs longer than stated",
+    "functions": ["fasta.(*Reader).Read/header", "fastq.(*Reader).Read/readHeader", "bed.(*Reader).Read, parseBed3..12, mustAto*", "gff.(*Reader).Read/commentMetaline/metaSeq, mustAto*, splitAnnot", "feat.OneToZero",
+                  "bufio.(*Reader).ReadLine/ReadSlice/ReadBytes/fill, bytes.TrimSpace/HasPrefix/Fields/Join/Split/SplitN/IndexAny, strconv.ParseInt/ParseUint (executed); strconv.ParseFloat on concrete bytes; time.Parse stubbed"],
+    "explanation": "(A) arbitrary buffer: every input byte symbolic, Read called until an error: no panic, record-or-error, error within lines+2 calls; (B) structured: a valid BED/GFF line with symbolic text holes and one symbolic mutation (delete/duplicate/empty a column, numeric boundary values, truncation at every offset, incomplete metadata lines): as A, plus structurally invalid lines must yield an error",
+    "outside": "arbitrary inputs longer than stated (FASTA/FASTQ <= 5, BED/GFF <= 5 bytes), more than one mutation per line, non-ASCII beyond one position",
 }
 
 
